@@ -33,6 +33,9 @@ func (p *HandlerPool) free(msgType string) {
 
 // Remove is used to remove a handler with a specified identifier.
 func (p *HandlerPool) Remove(msgType string, _ int64) error {
+	p.mu.Lock()
+	defer p.mu.Unlock()
+
 	if _, ok := p.handlers[msgType]; !ok {
 		return ErrHandleNotFound
 	}
